@@ -47,12 +47,13 @@ def r_batch(rng, family):
     return a
 
 
-def check_values(name, FL, r, ref_name=None):
-    """post-condition of one FL call; returns list of (mech, msg)"""
+def check_values(name, FL, r, ref_name=None, raw=None):
+    """post-condition of one FL call; returns list of (mech, msg). raw: the object actually handed to the limiter when it
+    is not the float array r itself (integer-typed arrays, numpy integer scalars, python ints holding the same ratios)"""
     bad = []
     r = np.asarray(r, dtype=float)
     with np.errstate(all='ignore'):
-        out = FL(r)
+        out = FL(r if raw is None else raw)
     out = np.asarray(out)
     if out.shape != r.shape:
         bad.append(('shape', '%s: result shape %r != input shape %r' % (name, out.shape, r.shape)))
@@ -131,6 +132,25 @@ def run_case(case):
         return _pack(bad, 'values/%s/%s/%s' % (name, case['family'], shape), cov,
                      {'kind': 'values', 'limiter': name, 'family': case['family'], 'shape': shape, 'r_head': to_list(r[:6])},
                      {'limiter': name, 'family': case['family'], 'shape': shape})
+    if kind == 'intratio':
+        # gradient ratios that happen to be whole numbers, stored as such: integer arrays of every width and shape, 0-d arrays,
+        # numpy integer scalars, python ints ("every finite gradient ratio", "arrays of any shape")
+        name = case['name']
+        FL, _ = get_FL(name)
+        bad = []
+        for dt in (np.int64, np.int32, np.int16, np.int8):
+            vals = rng.integers(-9, 10, 60).astype(dt)
+            vals[:8] = np.array([-3, -2, -1, 0, 1, 2, 3, 4], dtype=dt)
+            for arr in (vals, vals.reshape(5, 12), vals.reshape(3, 1, 20), vals[:1], np.asarray(vals[5])):
+                bad += check_values(name, FL, arr.astype(float), raw=arr)
+                cov['fl_calls'] = cov.get('fl_calls', 0) + 1
+                cov['fl_int_values'] = cov.get('fl_int_values', 0) + int(arr.size)
+            for x in vals[:12]:
+                bad += check_values(name, FL, float(x), raw=x)              # numpy integer scalar
+                bad += check_values(name, FL, float(x), raw=int(x))         # python int
+                cov['fl_int_values'] = cov.get('fl_int_values', 0) + 2
+        bad = [(name + '/int/' + m_, s_) for m_, s_ in bad]
+        return _pack(bad, 'intratio/%s' % name, cov, {'kind': 'intratio', 'limiter': name}, {'limiter': name, 'kind': 'intratio'})
     if kind == 'eps':
         name = case['name']
         bad = []
@@ -229,6 +249,7 @@ def plan(tier, seed):
                     i += 1
         chunks.append(cases)
     chunks.append([{'kind': 'eps', 'name': nm, 'seed': [seed, 13, 998, j]} for j, nm in enumerate(LIMITERS)])
+    chunks.append([{'kind': 'intratio', 'name': nm, 'seed': [seed, 13, 997, j]} for j, nm in enumerate(LIMITERS)])
     chunks.append([{'kind': 'unknown', 'name': nm, 'seed': [seed, 13, 999, j]}
                    for j, nm in enumerate(['superbee', 'NoSuchLimiter', '', 'minmod', 'VANLEER', 'Van Leer'])])
     Ns = [1, 2, 3] if tier == 'quick' else [1, 2, 3, 4, 5]
@@ -266,6 +287,8 @@ def floors(agg, tier):
     for cls in CLASSES:
         if agg['cov'].get('tvd_fields:' + cls, 0) < (100 if tier == 'quick' else 2000):
             out.append('too few TVD fields on ' + cls)
+    if agg['cov'].get('fl_int_values', 0) < 16 * 500:
+        out.append('integer-typed ratios: %d values checked' % agg['cov'].get('fl_int_values', 0))
     if agg['cov'].get('fl_unknown_name', 0) < 6:
         out.append('unknown-name fallback not exercised')
     return out
